@@ -115,15 +115,24 @@ type OSMGenConfig struct {
 	Multipolygons bool
 	Network       bool // highway tags on most ways, oneway, weights
 	GeometryKeys  bool // some nodes carry an OSM tag keyed "point" and some ways one keyed "path" (they collide with the geometry tags)
+	AllKeys       bool // tag keys are drawn from every key of the searchable mapping and lookalikes of them, not only the usual eight
 	MixedMembers  bool // multipolygons also list nodes and relations (labels, admin centres, members with empty or outer roles)
 }
 
 var osmKeys = []string{"name", "ref", "amenity", "highway", "building", "wikidata", "landuse", "note"}
+
+// every key of the documented mapping, and keys that resemble them but are not in it
+var osmKeysAll = append([]string{"amenity", "barrier", "boundary", "bridge", "building", "highway", "landuse", "leisure", "natural", "network",
+	"place", "railway", "route", "shop", "tourism", "water", "waterway", "fhrs:id", "wikidata", "wikipedia",
+	"fhrs:authority", "addr:street", "name:en", "disused:amenity", "Amenity", "shop:type", "wikidata:brand", "water_source"}, "name", "ref", "note")
+
+var osmTagKeys = osmKeys
+
 var osmValues = []string{"cafe", "path", "yes", "residential", "Q42", "primary", "x y"}
 
 func genOSMTags(t *rapid.T, label string, max int) []TagS {
 	n := rapid.IntRange(0, max).Draw(t, label+"n")
-	ks := rapid.SliceOfNDistinct(rapid.SampledFrom(osmKeys), n, n, rapid.ID[string]).Draw(t, label+"keys")
+	ks := rapid.SliceOfNDistinct(rapid.SampledFrom(osmTagKeys), n, n, rapid.ID[string]).Draw(t, label+"keys")
 	out := make([]TagS, 0, n)
 	for _, k := range ks {
 		out = append(out, TagS{k, rapid.SampledFrom(osmValues).Draw(t, label+"v")})
@@ -135,6 +144,10 @@ func genOSMTags(t *rapid.T, label string, max int) []TagS {
 // vertices of a closed way is far more than one E7 step apart.
 func GenOSM(t *rapid.T, cfg OSMGenConfig) OSMData {
 	var d OSMData
+	osmTagKeys = osmKeys
+	if cfg.AllKeys {
+		osmTagKeys = osmKeysAll
+	}
 	locs := map[LL]bool{}
 	fresh := func(lat, lng int32) LL {
 		ll := LL{lat, lng}
